@@ -10,6 +10,7 @@ from pyvc.values import (Val, V, VNone, NONE, VBool, VInt, VFloat, VStr, VBytes,
 from pyvc.loader import ClassInfo, EnumInfo, FuncInfo, BUILTIN_EXC, builtin_exc_is_sub
 from pyvc.ops import VTypeSym
 from pyvc.engine import VPyDict, VGen, LOGGER_NAMES, MAX_INLINE_DEPTH
+from pyvc.builtins import _logger_method
 
 
 class AccessMixin(object):
@@ -32,6 +33,15 @@ class AccessMixin(object):
       m = v.cls.find_method(name, after=v.cls) if isinstance(v.cls, ClassInfo) else None
       if m is not None:
         return [(st, VFunc(m, bound=v.obj))]
+      if name == '__setattr__':
+        obj = v.obj
+        def raw_setattr(ex, s, a, k):
+          nm = z3.simplify(a[0].t)
+          if not z3.is_string_value(nm):
+            raise Unsupported('object.__setattr__ with symbolic attribute name')
+          ex.write_field(s, obj, nm.as_string(), a[1])
+          return [(s, NONE)]
+        return [(st, VBuiltin('object.__setattr__', raw_setattr))]
       self.ctx.use_trusted('builtin-base.%s' % name)
       return [(st, VBuiltin('super.' + name, lambda ex, s, a, k: [(s, NONE)]))]
     if isinstance(v, VRef):
@@ -125,6 +135,8 @@ class AccessMixin(object):
         if name == '__class__':
           return [(st, VClass(cls[4:]))]
         raise Unsupported('attribute %s of builtin exception' % name)
+      if self.field_kind(cls, name) is not None:
+        return [(st, self.read_field(st, v, name))]
       b = self.builtin_method(st, v, name)
       if b is not None:
         return [(st, b)]
@@ -229,6 +241,12 @@ class AccessMixin(object):
     return z3.If(idx < 0, idx + n, idx)
 
   def _subscript(self, st, c, k, node):
+    from pyvc.values import VSnap
+    if isinstance(c, VSnap):
+      if c.how == 'dict':
+        return [(st, self.from_val(st, z3.Select(c.b, self.to_val(st, k)), c.elem))]
+      i = vv.as_intlike(k)
+      return [(st, self.from_val(st, z3.Select(c.b, z3.If(i < 0, i + c.a, i)), c.elem))]
     if isinstance(c, VRef) and c.nullable:
       self.safety(st, c.t != 0, 'subscript', "'NoneType' object is not subscriptable", node)
     if isinstance(c, VTuple):
